@@ -84,6 +84,9 @@ def execute(c, tree):
     notes = []
 
     olds = [list(p.objs)]          # the line objects of the last committed state
+    objs0 = list(p.objs)
+    kids0 = [bool(o.children) for o in objs0]
+    atf_i = [0]
 
     def observe(committed):
         texts = p.get_text()
@@ -155,6 +158,15 @@ def execute(c, tree):
                 if n == 0:
                     continue
                 i = k % n
+                if op.get("same"):
+                    # the same line OBJECT as at the start of the history (its index may have moved)
+                    tgt = objs0[k % len(objs0)]
+                    if op.get("need_children") and not kids0[k % len(objs0)]:
+                        continue
+                    i = next((j for j, x in enumerate(p.objs) if x is tgt), None)
+                    if i is None:
+                        continue
+                    atf_i[0] = i
                 lit = "ATF"
                 if kind == "atf_auto":
                     p.objs[i].append_to_family(s.lstrip() or "x", auto_indent=True)
@@ -179,7 +191,7 @@ def execute(c, tree):
             continue
         if lit == "ATF":
             # locate the single inserted line
-            i = k % n
+            i = atf_i[0] if op.get("same") else k % n
             if len(after) != len(before) + 1 and c["ac"] and c["ibl"]:
                 break               # the commit's blank-line filter also acted: the single inserted line cannot be located; end the history here
             idx = None
